@@ -241,7 +241,7 @@ fn cachegrind(case_file: &std::path::Path, n: u32, do_drop: bool) -> Result<(u64
 }
 
 /// Deterministic linearity probe: instructions of the final drop for n_small
-/// and n_big objects; the ratio must stay within 2.2x of the ratio of
+/// and n_big objects; the ratio must stay within 1.6x of the ratio of
 /// (objects + adoptions).
 fn ir_probe(c: &ScaleCase, small: u32, big: u32) -> CaseResult {
     let mut r = CaseResult {
@@ -293,12 +293,12 @@ fn ir_probe(c: &ScaleCase, small: u32, big: u32) -> CaseResult {
             // the same bound for building the shape (adopt / unadopt / clone calls)
             let build_ratio = build_big as f64 / build_small.max(1) as f64;
             r.msg = format!("{}; construction: {} vs {} instructions (ratio {:.2})", r.msg, build_small, build_big, build_ratio);
-            if build_ratio > 2.2 * size_ratio {
+            if build_ratio > 1.6 * size_ratio {
                 r.outcome = exec::Outcome::Violation;
                 r.view = View::Scale as u32;
                 r.msg = format!("[scale] the cost of building the adoption graph (adopt/unadopt/clone calls) does not grow linearly: {}", r.msg);
             }
-            if ir_ratio > 2.2 * size_ratio {
+            if ir_ratio > 1.6 * size_ratio {
                 r.outcome = exec::Outcome::Violation;
                 r.view = View::Scale as u32;
                 r.msg = format!("[scale] the cost of the final drop does not grow linearly: {}", r.msg);
